@@ -1,32 +1,108 @@
 (* Property C06 - a finished or failed render leaves nothing behind.
-   Only statements here; proofs live in Fault/Proofs.v.  Model: Fault/Model.v.
-   STAGE 1 of the build: the witnesses against the code before the repair.  The theorems about the
-   repaired code (tables_empty_after_any_outcome, stacks_restored, exception_class_preserved,
-   later_render_unaffected) are added in stage 2. *)
-From DJC Require Import Lib.Base Fault.Model Fault.Proofs.
+   Only statements here; proofs live in Fault/Proofs.v (induction over render trees: Fault/Main.v).
+   Model: Fault/Model.v.  `run cfg_fixed um t f s` is the bookkeeping of one top-level render of the tree t in
+   which callback invocation f raises an exception whose message has the lines um (f = None: nobody raises);
+   cfg_fixed is the code as it is now, cfg_old the code before the repair commits 51f6eaa / 478318a. *)
+From DJC Require Import Lib.Base Fault.Model Fault.SpecProofs Fault.Proofs.
 
-(* Before the repair (cfg_old): a failed render leaves entries in the module-level tables ... *)
+(* Every tree, every fault index (also none, also out of range): all six module-level tables are empty
+   afterwards - whether the render returned or raised. *)
+Theorem tables_empty_after_any_outcome : forall um t f,
+  tables_empty (snd (run cfg_fixed um t f init)) = true.
+Proof. exact tables_empty_lemma. Qed.
+Print Assumptions tables_empty_after_any_outcome.
+
+(* Component._metadata_stack of every instance and the render_context stack of the caller (and of every
+   snapshot) are as before: exactly, not only in depth, from any state with empty tables. *)
+Theorem stacks_restored : forall um t f s0, clean s0 ->
+  meta (snd (run cfg_fixed um t f s0)) = meta s0 /\ rctx (snd (run cfg_fixed um t f s0)) = rctx s0.
+Proof. exact stacks_restored_lemma. Qed.
+Print Assumptions stacks_restored.
+
+Theorem stacks_empty_after_any_outcome : forall um t f,
+  stacks_empty (snd (run cfg_fixed um t f init)) = true.
+Proof. exact stacks_empty_lemma. Qed.
+Print Assumptions stacks_empty_after_any_outcome.
+
+(* The bookkeeping never interferes with the outcome: no dictionary access of the library fails (OInternal
+   is one of the constructors of `outcome`), and what reaches the caller is what the S-model says - the user's
+   exception carried up through the slot markers and component_error_message wrappers around the faulting
+   invocation - for every tree, every fault index and every state with empty tables. *)
+Theorem outcome_is_specified : forall um t f s0, clean s0 ->
+  fst (run cfg_fixed um t f s0) = spec_outcome um t f.
+Proof. exact outcome_is_spec_lemma. Qed.
+Print Assumptions outcome_is_specified.
+
+(* The user's exception propagates, exactly when the fault index is one of the callback invocations of the
+   render; it is never replaced by an error of the bookkeeping; its message is the original text (um), or the
+   line naming the component path c0 followed by the complete original text (c0 = err._components as of the
+   outermost component; slot markers added after the last component wrapper are the `sl` part).
+   Premise: the user's text does not start with a line of the reserved prefix kind (MUser lines never do). *)
+Theorem exception_class_preserved : forall um t f,
+  strip_prefix um = um ->
+  match fst (run cfg_fixed um t f init) with
+  | OOk => f = None \/ exists k, f = Some k /\ npoints t <= k
+  | OUser c m => (exists k, f = Some k /\ k < npoints t) /\
+                 ((m = um /\ slots_only c) \/
+                  (exists sl c0, c = sl ++ c0 /\ slots_only sl /\ m = MPrefix c0 :: um))
+  | OInternal _ => False
+  end.
+Proof. exact exception_class_preserved_lemma. Qed.
+Print Assumptions exception_class_preserved.
+
+(* Whatever was rendered before and however it ended: the next render has the outcome it has from the empty
+   state, and again leaves nothing. *)
+Theorem later_render_unaffected : forall um0 t0 f0 um t f,
+  let s1 := snd (run cfg_fixed um0 t0 f0 init) in
+  fst (run cfg_fixed um t f s1) = fst (run cfg_fixed um t f init) /\
+  tables_empty (snd (run cfg_fixed um t f s1)) = true.
+Proof. exact later_render_unaffected_lemma. Qed.
+Print Assumptions later_render_unaffected.
+
+(* Histories: any sequence mixing finished and failed renders - every outcome is the solo outcome, and the
+   tables and stacks are empty at the end (hence after every prefix). *)
+Theorem history_leaves_nothing : forall um h,
+  fst (run_seq cfg_fixed um h init) = map (fun tf => fst (run cfg_fixed um (fst tf) (snd tf) init)) h /\
+  tables_empty (snd (run_seq cfg_fixed um h init)) = true /\
+  stacks_empty (snd (run_seq cfg_fixed um h init)) = true.
+Proof. exact history_lemma. Qed.
+Print Assumptions history_leaves_nothing.
+
+(* ---------- the same statements fail for the code before the repair (witnesses in corpus/C06) ---------- *)
 Theorem tables_empty_after_any_outcome_old_refuted :
   exists t f, f < npoints t /\ tables_empty (snd (run cfg_old [MUser 0] t (Some f) init)) = false.
 Proof. exact old_tables_refuted_lemma. Qed.
 Print Assumptions tables_empty_after_any_outcome_old_refuted.
 
-(* ... and the metadata stack / the caller's render_context unbalanced ... *)
 Theorem stacks_restored_old_refuted :
   exists t f, f < npoints t /\ stacks_empty (snd (run cfg_old [MUser 0] t (Some f) init)) = false.
 Proof. exact old_stacks_refuted_lemma. Qed.
 Print Assumptions stacks_restored_old_refuted.
 
-(* ... a render that FINISHES leaves entries behind when a child's placeholder is dropped from the output ... *)
+(* a render that FINISHES left entries behind when a child's placeholder was dropped from the output *)
 Theorem finished_render_clean_old_refuted :
   exists t, fst (run cfg_old [MUser 0] t None init) = OOk /\
             tables_empty (snd (run cfg_old [MUser 0] t None init)) = false.
 Proof. exact old_finished_render_refuted_lemma. Qed.
 Print Assumptions finished_render_clean_old_refuted.
 
-(* ... and the first line of a multi-line message of the user's exception is lost. *)
+(* the first line of a multi-line message was lost *)
 Theorem message_preserved_old_refuted :
   exists t f, fst (run cfg_old [MUser 0; MUser 1] t (Some f) init)
               = OUser [LName 0] [MPrefix [LName 0]; MUser 1].
 Proof. exact old_message_refuted_lemma. Qed.
 Print Assumptions message_preserved_old_refuted.
+
+(* ---------- non-vacuity ---------- *)
+(* the premise of exception_class_preserved holds for user text; `clean` states exist; a fault below the root
+   of a tree with a provide body and three children comes out with the path root > child and the complete
+   two-line message, and leaves nothing. *)
+Example user_text_premise : strip_prefix [MUser 0; MUser 1] = [MUser 0; MUser 1].
+Proof. reflexivity. Qed.
+Example clean_states_exist : clean init.
+Proof. exact clean_init. Qed.
+Example fault_below_root :
+  let r := run cfg_fixed [MUser 0; MUser 1] w2 (Some 5) init in
+  fst r = OUser [LName 0; LName 1] [MPrefix [LName 0; LName 1]; MUser 0; MUser 1] /\
+  tables_empty (snd r) = true /\ stacks_empty (snd r) = true /\ npoints w2 = 16.
+Proof. vm_compute. repeat split. Qed.
